@@ -801,7 +801,11 @@ func (app *Teleport) Name() string { return app.BaseApp.Name() }
 
 // BeginBlocker updates every begin block
 func (app *Teleport) BeginBlocker(ctx sdk.Context, req abci.RequestBeginBlock) abci.ResponseBeginBlock {
-	return app.mm.BeginBlock(ctx, req)
+	// BeginBlock runs on a gas meter of its own: what the modules read here (more in the first block of a restarted
+	// process, e.g. the capability module re-initialising its memory store) must not accumulate on the block's deliver
+	// context, whose meter baseapp reports - and charges to the block gas meter - for a transaction refused before the
+	// ante handler. Otherwise that gas, the fee market's block gas and the app hash depend on the process history.
+	return app.mm.BeginBlock(ctx.WithGasMeter(sdk.NewInfiniteGasMeter()), req)
 }
 
 // EndBlocker updates every end block
